@@ -155,6 +155,9 @@ func c12(c *wk.Ctx) {
 						c.Viol("C12", idx, "crash/panic/"+st, fmt.Sprintf("prefix %d of %d: %s", cut, len(full), pm), string(full[:cut]))
 					} else if err == nil {
 						c.Viol("C12", idx, "crash/torn-file-accepted", fmt.Sprintf("prefix %d of %d bytes loaded as %s", cut, len(full), sessStr(got)), string(full[:cut]))
+					} else if errs.IsNotFound(err) {
+						// "missing" and "cut short" are different answers: the client re-keys and overwrites on "not found"
+						c.Viol("C12", idx, "crash/torn-file-reported-as-missing", fmt.Sprintf("a file cut to %d of %d bytes exists, but Load reports it as not found: %v", cut, len(full), err), string(full[:cut]))
 					}
 					c.Distinct("crash", k, cut)
 					// the same crash seen by a loader that has successfully loaded this path before
